@@ -2,7 +2,7 @@
 RUNS = {
     #        quick   thorough
     "c03": (2400, 100000),
-    "c04": (2400, 120000),
+    "c04": (4000, 200000),
     "c11": (1600, 60000),
     "c12": (2400, 100000),
     "c13": (3000, 150000),
